@@ -238,6 +238,16 @@ pub fn build_stream(spec: &StreamSpec, n: usize, max_len: usize, dom: Domain) ->
 /// stratified window lengths 1..=254 with boundary weight
 pub fn length_strategy(min: u32) -> SBoxedStrategy<u32> {
 	let max = 254u32;
+	// wide period types (C20/O2): window lengths beyond 255
+	if PeriodType::MAX as u64 > 255 && std::env::var("VERIF_WIDE").is_ok() {
+		return prop_oneof![
+			4 => min..=40u32,
+			2 => 41u32..=254,
+			3 => prop_oneof![Just(255u32), Just(256u32), Just(257u32), Just(300u32)],
+			1 => prop_oneof![Just(1000u32), Just(5000u32), Just(65534u32)],
+		]
+		.sboxed();
+	}
 	prop_oneof![
 		4 => min..=(min + 4),
 		3 => (min + 5).min(20)..=20u32,
@@ -261,6 +271,8 @@ pub struct ValStream {
 pub fn val_stream(min_n: u32, max_len: usize, dom: Domain, allow_free_init: bool) -> SBoxedStrategy<ValStream> {
 	(length_strategy(min_n), spec_strategy(10), any::<u8>(), spec_strategy(1))
 		.prop_map(move |(n, spec, mode, ispec)| {
+			// wide windows (C20/O2): long enough to replace the window completely where that is affordable
+			let max_len = if n > 254 && n <= 2000 { max_len.max(3 * n as usize + 20) } else { max_len };
 			let xs = build_stream(&spec, n as usize, max_len, dom);
 			let init = if allow_free_init && mode % 3 == 0 {
 				build_stream(&ispec, 1, 1, dom)[0]
